@@ -34,12 +34,20 @@
 // Oracle (hand-labelled alphabet, the label is cross-checked against the
 // statement's definition "single path component"):
 //
-//	unacceptable name => an error is returned AND no sentinel ran AND the
-//	    recursive snapshot (path, mode, size, content hash) of the whole
-//	    per-case scratch tree is unchanged;
-//	acceptable name   => every sentinel that ran is <root>/<name>/notation-<name>
-//	    (or the install source) and every snapshot difference lies in <root>/<name>;
-//	List              => exactly the real (non-symlink) sub-directories of the root.
+//	name that must be refused (empty, NUL, or joined below the root it denotes anything but
+//	    <root>/<one component>) => an error is returned by the manager's call AND no sentinel
+//	    ran AND the recursive snapshot (path, mode, size, content hash) of the whole per-case
+//	    scratch tree is unchanged;
+//	acceptable name, or a name that merely denotes <root>/<one component> ("a/", "./a",
+//	    "a/../b", on Linux "a\b"; refusing it is allowed, not demanded) => every sentinel that
+//	    ran lies in that directory (or is the source of the running install) and every snapshot
+//	    difference lies in it (a new regular file directly in the root is evidence only);
+//	List => exactly the real (non-symlink) sub-directories of the root (as a set); nothing run
+//	    or changed outside them.
+//
+// Evidence only ("recorded:" outcome classes, never a violation): what config.AddPlugin and the
+// verifier make of the manager's refusal, a stale "found" answer for a plugin that is gone,
+// duplicates in a listing, plugins run by List, files created directly in the root.
 package main
 
 import (
@@ -54,6 +62,7 @@ import (
 	"os"
 	"path"
 	"path/filepath"
+	"regexp"
 	"runtime"
 	"sort"
 	"strings"
@@ -238,6 +247,33 @@ func alphabet(thorough bool) []nameSpec {
 	}
 	gen(nil)
 	return a
+}
+
+// mustReject tells whether the statement DEMANDS that the name be refused: it is empty, holds a NUL, or
+// joined below the plugin root it denotes (lexically, the way every path library resolves it) something
+// other than a directory <root>/<one component>. Names that are no single component as written but denote
+// such a directory all the same ("a/", "./a", "a/../b") and, on this platform, names with a backslash
+// (one component on Linux) may be refused OR be treated as the component they denote: the statement only
+// forbids that anything else than that directory is touched.
+func mustReject(n string) bool {
+	if n == "" || strings.IndexByte(n, 0) >= 0 || strings.HasPrefix(n, "/") {
+		return true
+	}
+	c := path.Clean(n)
+	return c == "." || c == ".." || strings.HasPrefix(c, "../") || strings.Contains(c, "/")
+}
+
+var markerRecord = regexp.MustCompile(`(?s)(.*?) (get-plugin-metadata|verify-signature|describe-key|generate-signature|generate-envelope)\n`)
+
+// executedBy parses the marker text of a case ("<executable> <command>\n" records; a path may hold blanks
+// and line breaks): the executables that ran, plus whatever could not be parsed.
+func executedBy(marker string) (exes []string, rest string) {
+	last := 0
+	for _, m := range markerRecord.FindAllStringSubmatchIndex(marker, -1) {
+		exes = append(exes, marker[m[2]:m[3]])
+		last = m[1]
+	}
+	return exes, marker[last:]
 }
 
 // singleComponent is the statement's definition of an acceptable name; it is only used to
@@ -1027,18 +1063,16 @@ func (w *world) runCase(ns nameSpec, depth int, pre, op string) string {
 		viol("panic")
 	}
 
-	if !ns.Acceptable {
+	strict := !ns.Acceptable && mustReject(c.name)
+	if strict {
 		// at most one execution key and one file-system key per case (the gravest), "no-error" alone otherwise
 		execRank := map[string]int{"executed-outside-root": 3, "executed-inside-root": 2, "executed-install-source": 1}
 		worstExec := ""
-		for _, line := range strings.Split(strings.TrimSuffix(string(mk), "\n"), "\n") {
-			if line == "" {
-				continue
-			}
-			exe := line
-			if i := strings.LastIndexByte(line, ' '); i > 0 {
-				exe = line[:i]
-			}
+		exes, unparsed := executedBy(string(mk))
+		if unparsed != "" {
+			exes = append(exes, unparsed)
+		}
+		for _, exe := range exes {
 			reason := "executed-outside-root"
 			switch {
 			case exe == c.srcExe && c.srcExe != "":
@@ -1070,8 +1104,15 @@ func (w *world) runCase(ns nameSpec, depth int, pre, op string) string {
 		if worstFS != "" {
 			viol(worstFS)
 		}
-		if res.firstErr == nil && worstExec == "" && worstFS == "" {
-			viol("no-error")
+		if res.err == nil && worstExec == "" && worstFS == "" {
+			// "rejected with an error" is said of the plugin manager's own calls (for a lookup: of Get and the
+			// use of what it returned, taken together). What config.AddPlugin or the verifier make of the
+			// manager's refusal is not part of C16 (C02 covers the verifier): evidence only.
+			if fam == opAddPlugin || fam == "verify" {
+				r.Outcome("recorded:" + fam + "/no-error")
+			} else {
+				viol("no-error")
+			}
 		}
 		if c.outside > 0 {
 			r.Nontrivial(fmt.Sprintf("%s|%d|%s|%s", ns.Label, depth, pre, op))
@@ -1082,21 +1123,29 @@ func (w *world) runCase(ns nameSpec, depth int, pre, op string) string {
 		return op + ":unacceptable/rejected-without-effect"
 	}
 
-	// acceptable name: only <root>/<name> may be touched
-	plugDir := filepath.Join(c.root, c.name)
-	plugExe := filepath.Join(plugDir, "notation-"+c.name)
-	rest := string(mk)
-	ranPlugin := strings.Contains(rest, plugExe+" ")
-	ranSource := c.srcExe != "" && strings.Contains(rest, c.srcExe+" ")
-	for _, exe := range []string{plugExe, c.srcExe} {
-		if exe == "" {
-			continue
-		}
-		for _, cmd := range []string{"get-plugin-metadata", "verify-signature"} {
-			rest = strings.ReplaceAll(rest, exe+" "+cmd+"\n", "")
+	// acceptable name - or a name that need not be refused because it denotes <root>/<one component>:
+	// only that directory may be touched (whether such an alias is refused or served is not judged)
+	kind := "acceptable"
+	eff := c.name
+	if !ns.Acceptable {
+		kind = "denotes-one-component"
+		eff = path.Clean(c.name)
+	}
+	plugDir := filepath.Join(c.root, eff)
+	plugExe := filepath.Join(plugDir, "notation-"+eff)
+	exes, unparsed := executedBy(string(mk))
+	ranPlugin, ranSource, ranElsewhere := false, false, unparsed != ""
+	for _, exe := range exes {
+		switch {
+		case c.srcExe != "" && exe == c.srcExe:
+			ranSource = true
+		case within(exe, plugDir) && exe != plugDir: // anything in the plugin's own directory
+			ranPlugin = true
+		default:
+			ranElsewhere = true
 		}
 	}
-	if rest != "" {
+	if ranElsewhere {
 		if fam == "verify" {
 			viol("plugin-outside-plugin-dir-executed")
 		} else {
@@ -1108,6 +1157,12 @@ func (w *world) runCase(ns nameSpec, depth int, pre, op string) string {
 	for _, ch := range changes {
 		if within(ch.path, plugDir) {
 			changedInside = true
+			continue
+		}
+		if ch.kind == "created" && filepath.Dir(ch.path) == c.root && after[ch.path].mode.IsRegular() {
+			// a new regular file directly in the plugin root (lock, index, log) can not be taken for a plugin
+			// and is none of "looks up, executes, installs into, deletes": evidence only
+			r.Outcome("recorded:" + fam + "/created-regular-file-in-plugin-root")
 			continue
 		}
 		if fam == "install-dir-nonexec" && ch.kind == "modified" && ch.path == c.srcExe {
@@ -1128,27 +1183,27 @@ func (w *world) runCase(ns nameSpec, depth int, pre, op string) string {
 		ok := false
 		_, statErr := os.Lstat(plugExe)
 		switch fam {
+		// (only what an honest plugin manager must do whatever its internals: no error type, no error text,
+		// no number or order of plugin runs, no policy about versions)
 		case opGet:
-			ok = pre == preInstalled && res.err == nil && ranPlugin || pre == preAbsent && errors.Is(res.err, os.ErrNotExist) && !ranPlugin
+			ok = pre == preInstalled && res.err == nil && ranPlugin || pre == preAbsent && res.err != nil && !ranPlugin
 		case opUninstall:
 			_, e := os.Lstat(plugDir)
-			ok = pre == preInstalled && res.err == nil && errors.Is(e, os.ErrNotExist) || pre == preAbsent && errors.Is(res.err, os.ErrNotExist)
+			ok = pre == preInstalled && res.err == nil && errors.Is(e, os.ErrNotExist) || pre == preAbsent
 		case "install-file", "install-dir":
-			ok = res.err == nil && ranSource && statErr == nil && (ranPlugin == (pre == preInstalled))
+			ok = res.err == nil && statErr == nil
 		case "install-dir-nonexec":
-			// the private non-executable copy has no behaviour file (no marker): with the plugin absent the
-			// installation succeeds and the plugin file exists; with it installed the equal version is refused
-			ok = pre == preAbsent && res.err == nil && statErr == nil || pre == preInstalled && res.err != nil && statErr == nil
+			ok = statErr == nil && (pre == preInstalled || res.err == nil)
 		case opAddPlugin:
-			ok = pre == preInstalled && res.err == nil || pre == preAbsent && errors.Is(res.err, os.ErrNotExist)
+			ok = pre == preInstalled && res.err == nil || pre == preAbsent
 		case "verify":
 			switch {
 			case pre == preAbsent:
-				ok = res.err != nil && !ranPlugin
+				ok = !ranPlugin
 			case strings.HasSuffix(op, "-untrusted"):
-				ok = res.err != nil && ranPlugin // the name reaches the manager before authenticity is evaluated
+				ok = res.err != nil
 			default:
-				ok = res.err == nil && strings.Contains(string(mk), plugExe+" verify-signature\n")
+				ok = res.err == nil && ranPlugin
 			}
 		}
 		w.control(fam, ok)
@@ -1158,7 +1213,7 @@ func (w *world) runCase(ns nameSpec, depth int, pre, op string) string {
 		}
 	}
 	if violated {
-		return op + ":acceptable/VIOLATION"
+		return op + ":" + kind + "/VIOLATION"
 	}
 	cls := "ok"
 	if res.err != nil {
@@ -1176,7 +1231,7 @@ func (w *world) runCase(ns nameSpec, depth int, pre, op string) string {
 	if !ranPlugin && !ranSource && !changedInside {
 		cls += "-without-effect"
 	}
-	return op + ":acceptable/" + cls
+	return op + ":" + kind + "/" + cls
 }
 
 // ---------------------------------------------------------------- List
@@ -1300,12 +1355,7 @@ func (w *world) runList(depth, mask int, noRoot bool) string {
 	if lerr != nil && !noRoot {
 		viol("error")
 	}
-	if len(mk) > 0 {
-		viol("executed")
-	}
-	if len(diff(before, after)) > 0 {
-		viol("changed-file-system")
-	}
+	listSideEffects(r, string(mk), diff(before, after), after, R, want, viol)
 	if lerr == nil && panicked == "" {
 		wantSet := map[string]int{}
 		for _, n := range want {
@@ -1324,6 +1374,11 @@ func (w *world) runList(depth, mask int, noRoot bool) string {
 						reason = "listed-twice"
 					}
 				}
+			}
+			if reason == "listed-twice" {
+				// the same real directory reported more than once: still exactly the real sub-directories
+				r.Outcome("recorded:list/listed-twice")
+				continue
 			}
 			viol(reason)
 		}
@@ -1405,9 +1460,9 @@ func histories(maxLen int) [][]string {
 	return out
 }
 
-// badVariants are unacceptable spellings that denote (or look like) the plugin x.
+// badVariants are spellings around the plugin x that the statement demands to be refused (mustReject).
 func badVariants(x string) []string {
-	return []string{"../" + x, x + "/", "./" + x, x + "/../" + x, x + "\x00", "../plugins/" + x, "x/../" + x, x + "\\"}
+	return []string{"../" + x, "./../" + x, x + "\x00", "../plugins/" + x, x + "/../../plugins/" + x, x + "/" + x, x + "/.."}
 }
 
 func stepKind(st string) string {
@@ -1415,6 +1470,45 @@ func stepKind(st string) string {
 		return "install"
 	}
 	return st
+}
+
+// inRealSubdir: p lies inside one of the real sub-directories (names) of root.
+func inRealSubdir(p, root string, names []string) bool {
+	for _, n := range names {
+		if d := filepath.Join(root, n); within(p, d) && p != d {
+			return true
+		}
+	}
+	return false
+}
+
+// listSideEffects judges what a List call ran and changed. The statement lets the manager look into and
+// execute <root>/<name> (a List that asks every plugin for its metadata is legitimate); anything run or
+// changed elsewhere is not. A new regular file directly in the root is evidence only (see runCase).
+func listSideEffects(r *hx.Run, marker string, changes []change, after map[string]entry, root string, real []string, viol func(string)) {
+	exes, unparsed := executedBy(marker)
+	bad := unparsed != ""
+	for _, exe := range exes {
+		if !inRealSubdir(exe, root, real) {
+			bad = true
+		}
+	}
+	if bad {
+		viol("executed-outside-the-plugin-directories")
+	} else if len(exes) > 0 {
+		r.Outcome("recorded:list/executed-plugins-of-the-root")
+	}
+	for _, ch := range changes {
+		switch {
+		case inRealSubdir(ch.path, root, real):
+			r.Outcome("recorded:list/changed-inside-a-plugin-directory")
+		case ch.kind == "created" && filepath.Dir(ch.path) == root && after[ch.path].mode.IsRegular():
+			r.Outcome("recorded:list/created-regular-file-in-plugin-root")
+		default:
+			viol("changed-file-system-outside-the-plugin-directories")
+			return
+		}
+	}
 }
 
 // realSubdirs is the harness's own look at the plugin root: names of the entries that are directories themselves.
@@ -1446,6 +1540,9 @@ func (w *world) runHistory(ns nameSpec, depth int, pre string, steps []string) s
 	if !legalFileName(c.name) || !utf8.ValidString(c.name) {
 		return "history:skipped/name-cannot-be-installed-or-signed"
 	}
+	if !ns.Acceptable && !mustReject(c.name) {
+		return "history:skipped/name-need-not-be-refused"
+	}
 	c.populate()
 	srcFile := c.installSource(false)
 	srcFileExe := c.srcExe
@@ -1475,7 +1572,7 @@ func (w *world) runHistory(ns nameSpec, depth int, pre string, steps []string) s
 	markerOff := 0
 	violated := false
 	// reference model, used for the positive controls only (non-vacuity, never a violation)
-	installed, version := pre == preInstalled, "1.0.0"
+	installed := pre == preInstalled
 	modelOK := true
 	var trace []string
 
@@ -1527,9 +1624,10 @@ func (w *world) runHistory(ns nameSpec, depth int, pre string, steps []string) s
 					evals++
 					p, err := mgr.Get(ctx, v)
 					if err == nil {
-						firstErr, opErr = nil, nil
 						evals++
-						_, _ = p.GetMetadata(ctx, &fw.GetMetadataRequest{}) // let a sentinel tell what was found
+						if _, err = p.GetMetadata(ctx, &fw.GetMetadataRequest{}); err == nil { // (a sentinel tells what was found)
+							firstErr, opErr = nil, nil
+						}
 					}
 				}
 			default:
@@ -1590,20 +1688,22 @@ func (w *world) runHistory(ns nameSpec, depth int, pre string, steps []string) s
 		}
 		acceptable := ns.Acceptable && st != stGetBad
 		if st == stList {
-			// List takes no name: exact result, nothing executed, nothing changed
-			got := append([]string(nil), listed...)
+			// List takes no name: exactly the real sub-directories (as a set), nothing run or changed outside them
+			gotSet := map[string]bool{}
+			for _, n := range listed {
+				gotSet[n] = true
+			}
+			got := make([]string, 0, len(gotSet))
+			for n := range gotSet {
+				got = append(got, n)
+			}
 			sort.Strings(got)
 			if opErr != nil {
 				viol("error")
 			} else if strings.Join(got, "\x00") != strings.Join(wantList, "\x00") {
 				viol("not-exactly-the-real-sub-directories")
 			}
-			if mk != "" {
-				viol("executed")
-			}
-			if len(changes) > 0 {
-				viol("changed-file-system")
-			}
+			listSideEffects(r, mk, changes, after, c.root, wantList, viol)
 		} else if !acceptable {
 			if mk != "" {
 				viol("executed-for-unacceptable-name")
@@ -1611,40 +1711,50 @@ func (w *world) runHistory(ns nameSpec, depth int, pre string, steps []string) s
 			if len(changes) > 0 {
 				viol("changed-file-system-for-unacceptable-name")
 			}
-			if firstErr == nil && mk == "" && len(changes) == 0 {
-				viol("no-error")
+			if opErr == nil && mk == "" && len(changes) == 0 {
+				if st == stVerify { // what the verifier makes of the manager's refusal is C02's business
+					r.Outcome("recorded:history/verify-no-error")
+				} else {
+					viol("no-error")
+				}
 			}
 		} else {
-			rest := mk
-			allowed := []string{plugExe}
-			if srcExe != "" {
-				allowed = append(allowed, srcExe) // the source of THIS install step
-			}
-			for _, exe := range allowed {
-				for _, cmd := range []string{"get-plugin-metadata", "verify-signature"} {
-					rest = strings.ReplaceAll(rest, exe+" "+cmd+"\n", "")
-				}
-			}
-			if rest != "" {
+			exes, unparsed := executedBy(mk)
+			ranElsewhere, ranASource := unparsed != "", false
+			for _, exe := range exes {
 				switch {
-				case strings.Contains(rest, srcFileExe+" ") || strings.Contains(rest, srcDirExe+" "):
-					viol("executed-install-source-outside-plugin-dir")
+				case srcExe != "" && exe == srcExe: // the source of THIS install step
+				case within(exe, plugDir) && exe != plugDir: // anything in the plugin's own directory
+				case exe == srcFileExe || exe == srcDirExe:
+					ranElsewhere, ranASource = true, true
 				default:
-					viol("executed-outside-plugin-dir")
+					ranElsewhere = true
 				}
+			}
+			if ranASource {
+				viol("executed-install-source-outside-plugin-dir")
+			} else if ranElsewhere {
+				viol("executed-outside-plugin-dir")
 			}
 			for _, ch := range changes {
-				if !within(ch.path, plugDir) {
-					viol(ch.kind + "-outside-plugin-dir")
-					break
+				if within(ch.path, plugDir) {
+					continue
 				}
+				if ch.kind == "created" && filepath.Dir(ch.path) == c.root && after[ch.path].mode.IsRegular() {
+					r.Outcome("recorded:history/created-regular-file-in-plugin-root")
+					continue
+				}
+				viol(ch.kind + "-outside-plugin-dir")
+				break
 			}
-			// the manager only ever looks up <root>/<name>/notation-<name>: a plugin that was found is that file
+			// A plugin that is reported as found although <root>/<name>/notation-<name> is not there (stale
+			// memory of the manager): nothing outside <root>/<name> was looked up, run or changed, so C16 holds;
+			// evidence only.
 			if st == stGet && firstErr == nil && !plugIsFile {
-				viol("found-a-plugin-that-is-not-in-the-plugin-dir")
+				r.Outcome("recorded:history/get-found-a-plugin-that-is-not-in-the-plugin-dir")
 			}
 			if st == stVerify && opErr == nil && !plugIsFile {
-				viol("verified-with-a-plugin-that-is-not-in-the-plugin-dir")
+				r.Outcome("recorded:history/verified-with-a-plugin-that-is-not-in-the-plugin-dir")
 			}
 		}
 		if !intact {
@@ -1656,21 +1766,21 @@ func (w *world) runHistory(ns nameSpec, depth int, pre string, steps []string) s
 			ranPlugin := strings.Contains(mk, plugExe+" ")
 			switch st {
 			case stInstFile, stInstFileOW, stInstDir, stInstDirOW:
+				// an installation over nothing, or with overwrite, succeeds; what happens to an equal or older
+				// version without overwrite is policy, and how often which file is run is mechanism: not modelled
 				ow := st == stInstFileOW || st == stInstDirOW
-				want := !installed || version < "2.0.0" || ow
-				// (with overwrite a failure to run the existing plugin is ignored by Install: not part of the model)
-				if (opErr == nil) != want || !strings.Contains(mk, srcExe+" ") || (!ow && ranPlugin != installed) || (ranPlugin && !installed) {
+				if (!installed || ow) && opErr != nil || (ranPlugin && !installed) {
 					modelOK = false
 				}
 				if opErr == nil {
-					installed, version = true, "2.0.0"
+					installed = true
 				}
 			case stGet:
 				if (opErr == nil) != installed || ranPlugin != installed {
 					modelOK = false
 				}
 			case stUninstall:
-				if (opErr == nil) != installed {
+				if installed && opErr != nil { // (whether removing what is not there is an error is not modelled)
 					modelOK = false
 				}
 				if opErr == nil {
@@ -1844,7 +1954,7 @@ func main() {
 	if thorough {
 		hists = histories(3)
 		histDepths = []int{2}
-		histNames = map[string]bool{"control-foo": true, "control-dotted": true, "control-long240": true, "blank-inside": true, "newline-inside": true, "dotdot": true, "backslash": true, "dot": true}
+		histNames = map[string]bool{"control-foo": true, "control-dotted": true, "control-long240": true, "blank-inside": true, "newline-inside": true, "dotdot": true, "dot": true}
 	}
 	nHistNames := 0
 	for _, ns := range names {
@@ -1852,6 +1962,11 @@ func main() {
 			continue
 		}
 		nHistNames++
+		for _, v := range badVariants(ns.instantiate("/scratch/case")) {
+			if !mustReject(v) {
+				r.Infra("history variant %q of %q need not be refused under the statement", short(v, 40), ns.Label)
+			}
+		}
 		for _, d := range histDepths {
 			for _, pre := range []string{preInstalled, preAbsent} {
 				for _, h := range hists {
@@ -1881,6 +1996,35 @@ func main() {
 	r.Extra["names_acceptable"] = acc
 	r.Extra["names_unacceptable"] = unacc
 
+	// breadth first: the k-th case of every (name, operation family) / List mask / step sequence runs
+	// before any (k+1)-th one, so that a run cut by the deadline has still seen every kind of case
+	{
+		seenKind := map[string]int{}
+		rank := make([]int, len(jobs))
+		for i, j := range jobs {
+			var k string
+			switch j.op {
+			case opList:
+				k = fmt.Sprintf("list|%d|%v", j.mask, j.noRoot)
+			case opHistory:
+				k = "history|" + strings.Join(j.steps, ">")
+			default:
+				k = j.ns.Label + "|" + family(j.op)
+			}
+			rank[i] = seenKind[k]
+			seenKind[k]++
+		}
+		idx := make([]int, len(jobs))
+		for i := range idx {
+			idx[i] = i
+		}
+		sort.SliceStable(idx, func(a, b int) bool { return rank[idx[a]] < rank[idx[b]] })
+		sorted := make([]job, len(jobs))
+		for i, k := range idx {
+			sorted[i] = jobs[k]
+		}
+		jobs = sorted
+	}
 	// internal deadline: under machine load the run is cut (and says so) rather than overrunning its budget
 	if thorough {
 		r.SetDeadline(9 * time.Minute)
@@ -1918,7 +2062,7 @@ func main() {
 	}, nil)
 
 	if n := cut.Load(); n > 0 {
-		r.Capped(fmt.Sprintf("internal deadline: %d of %d cases completed (cases are ordered single calls, List, histories)", done.Load(), len(jobs)))
+		r.Capped(fmt.Sprintf("internal deadline: %d of %d cases completed (cases run breadth first over names x operation families, List masks and step sequences)", done.Load(), len(jobs)))
 	}
 
 	// nothing may have been created relative to the working directory
